@@ -8,7 +8,9 @@ import re
 import codec_seeds
 import vf
 
-PROCS = 4  # the machine is shared: at most four harness processes / TLC workers
+# the machine is shared: VERIF_JOBS harness processes (default 4, at most 8), at most four TLC workers
+PROCS = max(1, min(int(os.environ.get("VERIF_JOBS", "0") or 0) or 4, 8))
+TLC_WORKERS = min(PROCS, 4)
 
 SAN_ENV = {
     # a sanitizer report ends the process: the job announced last (flushed "Begin" line) is the culprit
@@ -39,14 +41,26 @@ def _read_trace(path):
 
 
 def _unfinished(lines):
-    """case id of a Begin line that has no result line after it (crash/hang), else None"""
+    """the Begin line that has no result line after it (crash/hang), else None"""
     open_case = None
     for o in lines:
         if o.get("e") == "Begin":
-            open_case = o.get("case")
-        elif o.get("case") == open_case:
+            open_case = o
+        elif open_case is not None and o.get("case") == open_case.get("case"):
             open_case = None
     return open_case
+
+
+def _locate(rest, case):
+    """(index of the job in rest, job restricted to the crashed document, job resuming behind it)"""
+    jid, _, n = case.partition(".")
+    idx = next((i for i, j in enumerate(rest) if j.get("id") == jid), None)
+    if idx is None:
+        return None, None, None
+    job = rest[idx]
+    if n == "":
+        return idx, job, None
+    return idx, dict(job, **{"from": int(n), "upto": int(n) + 1}), dict(job, **{"from": int(n) + 1})
 
 
 def _san_frames(stderr):
@@ -74,42 +88,72 @@ def _ub_reports(stderr, jobs_by_id):
             text = re.sub(r"-?\d+", "N", m.group(3)) if m else ln
             where = f"{m.group(1)}:{m.group(2)}" if m else "?"
             frames = _san_frames("\n".join(lines[i + 1:i + 40]))
-            res.append({"job": jobs_by_id.get(case, {"id": case}), "kind": "ubsan", "sig": f"runtime error: {text} at {where}",
+            job = jobs_by_id.get(case)
+            if job is None and case and "." in case and case.split(".")[0] in jobs_by_id:
+                n = int(case.split(".")[1])
+                job = dict(jobs_by_id[case.split(".")[0]], **{"from": n, "upto": n + 1})
+            res.append({"job": job or {"id": case}, "case": case, "kind": "ubsan", "sig": f"runtime error: {text} at {where}",
                         "frames": frames, "report": [ln.strip()], "stderr_tail": "\n".join(lines[i:i + 12])})
     return res
 
 
-def run_shard(chk, tag, shard_no, jobs, seeds_path, alarm, max_crashes=12, env_extra=None):
+def run_shard(chk, tag, shard_no, jobs, seeds_path, alarm, max_crashes=12, env_extra=None, skip=None):
     """Run one shard; after a crash restart behind the crashed job. Returns (lines, crashes)."""
     lines = []
     crashes = []
     rest = list(jobs)
     attempt = 0
+    skip = skip if skip is not None else set()   # classes already reported as hanging: not run again (shared by the chunks)
+    env = dict(SAN_ENV, **(env_extra or {}))
     while rest:
         inp = chk.path(f"{tag}-jobs-{shard_no}-{attempt}.ndjson")
         out = chk.path(f"{tag}-trace-{shard_no}-{attempt}.ndjson")
         vf.write_ndjson(inp, rest)
+        opts = {"seeds": seeds_path, "alarm": alarm}
+        if skip:
+            opts["skip"] = ",".join(sorted(skip))
         r = vf.qxv("codec", out, in_path=inp, seed=chk.seed + 1000 * shard_no + attempt, tier=chk.tier,
-                   opts={"seeds": seeds_path, "alarm": alarm}, env=dict(SAN_ENV, **(env_extra or {})), check=False, timeout=6000)
+                   opts=opts, env=env, check=False, timeout=6000)
         got = _read_trace(out)
         lines += got
         crashes += _ub_reports(r["stderr"], {j.get("id"): j for j in rest})
         if r["rc"] == 0:
             break
-        bad_case = _unfinished(got)
-        if bad_case is None:
+        begin = _unfinished(got)
+        if begin is None:
             # the process failed outside a job: machinery, not the code under test
             raise vf.MachineryError(f"qxv codec exited {r['rc']} outside a job:\n{r['stderr'][-2000:]}")
-        idx = next((i for i, j in enumerate(rest) if j.get("id") == bad_case), None)
+        bad_case = begin["case"]
+        idx, only_job, resume_job = _locate(rest, bad_case)
         if idx is None:
             raise vf.MachineryError(f"crashed job {bad_case} not found in shard")
         asan = [x for x in r["sanitizer"] if "runtime error:" not in x]
-        kind = "sanitizer" if asan else ("timeout" if r["rc"] in (-14, 142) else f"exit{r['rc']}")
-        asan_sig = re.sub(r"0x[0-9a-f]+", "ADDR", asan[0])[:120] if asan else f"exit{r['rc']}"
-        tail = r["stderr"][r["stderr"].rfind("ERROR: AddressSanitizer"):] if asan else r["stderr"][-1500:]
-        crashes.append({"job": rest[idx], "kind": kind, "sig": asan_sig, "frames": _san_frames(tail),
-                        "report": asan[:3], "stderr_tail": tail[:1500]})
-        rest = rest[idx + 1:]
+        hang = re.search(r"^qxv-hang (\S+) (.+)$", r["stderr"], re.M)
+        if hang or r["rc"] in (124, -14, 142):
+            # a parser did not return within the alarm.  Timing-dependent: confirm on the document alone,
+            # with three times the budget, before it is reported; the class is not run again in this run.
+            cls = hang.group(2).strip() if hang else "?"
+            cinp = chk.path(f"{tag}-confirm-{shard_no}-{attempt}.ndjson")
+            cout = chk.path(f"{tag}-confirm-trace-{shard_no}-{attempt}.ndjson")
+            vf.write_ndjson(cinp, [only_job])
+            copts = {"seeds": seeds_path, "alarm": 3 * alarm}
+            if cls != "?" and cls != "harness":
+                copts["only"] = cls
+            r2 = vf.qxv("codec", cout, in_path=cinp, seed=chk.seed, tier=chk.tier, opts=copts, env=env, check=False, timeout=6000)
+            if r2["rc"] in (124, -14, 142) or re.search(r"^qxv-hang ", r2["stderr"], re.M):
+                crashes.append({"job": only_job, "kind": "hang", "cls": cls, "seed_src": begin.get("src", ""), "plan": begin.get("plan", ""),
+                                "sig": f"no return within {3 * alarm} s", "frames": [], "report": [],
+                                "stderr_tail": f"{cls} did not return within {alarm} s, nor within {3 * alarm} s when run alone on the document"})
+            else:
+                chk.note(f"{tag}: {cls} exceeded the {alarm} s alarm on {bad_case} but returned when run alone (slow, not a hang)")
+            skip.add(cls)
+        else:
+            kind = "sanitizer" if asan else f"exit{r['rc']}"
+            asan_sig = re.sub(r"0x[0-9a-f]+", "ADDR", asan[0])[:120] if asan else f"exit{r['rc']}"
+            tail = r["stderr"][r["stderr"].rfind("ERROR: AddressSanitizer"):] if asan else r["stderr"][-1500:]
+            crashes.append({"job": only_job, "kind": kind, "sig": asan_sig, "frames": _san_frames(tail),
+                            "report": asan[:3], "stderr_tail": tail[:1500]})
+        rest = ([resume_job] if resume_job else []) + rest[idx + 1:]
         attempt += 1
         if sum(1 for x in crashes if x["kind"] != "ubsan") >= max_crashes:
             chk.note(f"{tag}: shard {shard_no} stopped after {len(crashes)} crashes; {len(rest)} jobs not run")
@@ -118,20 +162,27 @@ def run_shard(chk, tag, shard_no, jobs, seeds_path, alarm, max_crashes=12, env_e
 
 
 def run_jobs(chk, tag, jobs, seeds_path, alarm=60, procs=PROCS, env_extra=None):
-    """Distribute jobs round-robin over `procs` harness processes. Returns (trace paths, all lines, crashes)."""
-    shards = [jobs[i::procs] for i in range(procs)]
+    """Run the jobs on `procs` harness processes at a time.  The jobs are dealt into 6*procs chunks that
+    the workers pick up as they become free (jobs differ a lot in size); the chunk traces are merged
+    into `procs` trace files.  Returns (trace paths, all lines, crashes)."""
+    nchunks = max(1, min(len(jobs), procs * 6))
+    chunks = [jobs[i::nchunks] for i in range(nchunks)]
+    merged = [[] for _ in range(procs)]
     all_lines = []
     crashes = []
-    paths = []
+    skip = set()
     with concurrent.futures.ThreadPoolExecutor(max_workers=procs) as ex:
-        futs = [ex.submit(run_shard, chk, tag, i, sh, seeds_path, alarm, 12, env_extra) for i, sh in enumerate(shards) if sh]
+        futs = [ex.submit(run_shard, chk, tag, i, ch, seeds_path, alarm, 12, env_extra, skip) for i, ch in enumerate(chunks) if ch]
         for i, f in enumerate(futs):
             lines, cr = f.result()
-            p = chk.path(f"{tag}-trace-{i}.ndjson")
-            vf.write_ndjson(p, lines)
-            paths.append(p)
+            merged[i % procs] += lines
             all_lines += lines
             crashes += cr
+    paths = []
+    for i, lines in enumerate(merged):
+        p = chk.path(f"{tag}-trace-{i}.ndjson")
+        vf.write_ndjson(p, lines)
+        paths.append(p)
     return paths, all_lines, crashes
 
 
@@ -181,6 +232,9 @@ def signature(prop, b):
 
 
 def crash_signature(prop, c):
+    if c["kind"] == "hang":
+        # which parser does not return, on which test literal, after which one-step/multi-step plan
+        return f"{prop}:hang:{c['cls']}:{c.get('seed_src') or c['job'].get('seed')}:{c.get('plan') or '+'.join(s['op'] for s in c['job'].get('steps', []))}"
     sig = re.sub(r"-?\d+", "N", c["sig"])
     frames = ",".join(c["frames"]) or "no-repo-frame"
     return f"{prop}:{c['kind']}:{sig}:{frames}"
